@@ -3,6 +3,7 @@ package genlab
 import (
 	"encoding/json"
 	"fmt"
+	"sort"
 	"strings"
 
 	"github.com/go-openapi/spec"
@@ -299,6 +300,51 @@ func (g *msGen) instance(defs map[string]*MS, s *MS, depth int) interface{} {
 	return "x"
 }
 
+// zeroAnItem replaces one element of some array of scalars (at any depth) by the zero value of its type.
+func (g *msGen) zeroAnItem(v interface{}) (interface{}, bool) {
+	switch t := v.(type) {
+	case []interface{}:
+		if len(t) == 0 {
+			return v, false
+		}
+		c := append([]interface{}{}, t...)
+		i := g.r.Intn(len(c))
+		switch c[i].(type) {
+		case string:
+			c[i] = ""
+		case int64, int:
+			c[i] = int64(0)
+		case float64:
+			c[i] = 0.0
+		case bool:
+			c[i] = false
+		default:
+			nv, ok := g.zeroAnItem(c[i])
+			c[i] = nv
+			return c, ok
+		}
+		return c, true
+	case map[string]interface{}:
+		keys := []string{}
+		for k := range t {
+			keys = append(keys, k)
+		}
+		sort.Strings(keys)
+		g.r.Shuffle(len(keys), func(a, b int) { keys[a], keys[b] = keys[b], keys[a] })
+		for _, k := range keys {
+			if nv, ok := g.zeroAnItem(t[k]); ok {
+				c := map[string]interface{}{}
+				for kk, vv := range t {
+					c[kk] = vv
+				}
+				c[k] = nv
+				return c, true
+			}
+		}
+	}
+	return v, false
+}
+
 // single-point mutations of an instance
 func (g *msGen) mutate(v interface{}) (interface{}, string) {
 	switch t := v.(type) {
@@ -506,7 +552,11 @@ func modelsRun(run *ev.Run, which string) {
 			inst := g.instanceOf(dm, def)
 			what := "valid-by-construction"
 			if (which == "C02" && ii%3 != 0) || (which == "C05" && ii%3 == 0) {
-				inst, what = g.mutate(inst)
+				if z, ok := g.zeroAnItem(inst); ok && ii%4 == 1 {
+					inst, what = z, "zero-item"
+				} else {
+					inst, what = g.mutate(inst)
+				}
 			}
 			doc, _ := json.Marshal(inst)
 			resp, err := mb.Do(def, doc)
